@@ -93,15 +93,17 @@ fn run_pass<I: Send, O: Send>(items: Vec<I>, f: &(dyn Fn(I) -> O + Sync)) -> Vec
     let inputs: Vec<StdMutex<Option<I>>> = items.into_iter().map(|i| StdMutex::new(Some(i))).collect();
     let outputs: Vec<StdMutex<Option<O>>> = (0..n).map(|_| StdMutex::new(None)).collect();
     let next = AtomicUsize::new(0);
+    let started = AtomicUsize::new(0);
     let done = AtomicUsize::new(0);
     struct Shared<'a, I, O> {
         inputs: &'a [StdMutex<Option<I>>],
         outputs: &'a [StdMutex<Option<O>>],
         next: &'a AtomicUsize,
+        started: &'a AtomicUsize,
         done: &'a AtomicUsize,
         f: &'a (dyn Fn(I) -> O + Sync),
     }
-    let shared = Shared { inputs: &inputs, outputs: &outputs, next: &next, done: &done, f };
+    let shared = Shared { inputs: &inputs, outputs: &outputs, next: &next, started: &started, done: &done, f };
     fn work<I, O>(s: &Shared<'_, I, O>) {
         loop {
             let i = s.next.fetch_add(1, Ordering::SeqCst); // claim (scheduling point)
@@ -110,7 +112,10 @@ fn run_pass<I: Send, O: Send>(items: Vec<I>, f: &(dyn Fn(I) -> O + Sync)) -> Vec
             }
             let item = s.inputs[i].lock().unwrap().take().expect("item claimed twice");
             EVENT_LOG.lock().unwrap().push((b'S', i));
-            loom::thread::yield_now(); // task start (scheduling point)
+            // task start: a read-modify-write on a shared loom atomic, i.e. an operation the explorer
+            // reorders against the other workers' starts (a bare yield is no branch point: the worker
+            // that claimed first would also always run its closure first)
+            s.started.fetch_add(1, Ordering::SeqCst);
             let out = (s.f)(item);
             EVENT_LOG.lock().unwrap().push((b'F', i));
             *s.outputs[i].lock().unwrap() = Some(out);
